@@ -26,12 +26,18 @@ class Recording(Aggregator):
         self.inner = inner
         self.calls: list[tuple[torch.Tensor, torch.Tensor]] = []
         self.raw_matrices: list[torch.Tensor] = []
+        self.n_forward = 0
+        # The recording happens in a forward hook: `aggregator(J)` is an nn.Module call, hooks registered on the
+        # aggregator are part of it (a pipeline calling `.forward()` directly would skip them and record nothing).
+        self.register_forward_hook(self._record)
+
+    def _record(self, _module, args, output):
+        self.calls.append((args[0].detach().clone(), output.detach().clone()))
 
     def forward(self, matrix):
+        self.n_forward += 1
         self.raw_matrices.append(matrix)
-        out = self.inner(matrix)
-        self.calls.append((matrix.detach().clone(), out.detach().clone()))
-        return out
+        return self.inner(matrix)
 
 
 def snapshot(tensors: dict) -> dict:
